@@ -8,6 +8,7 @@
   bit ranges is addition" (`or_low`) and linear arithmetic.
 -/
 import Rl2tp.Spec.Utf8
+import Rl2tp.Proofs.All256
 namespace Rl2tp.Utf8Proof
 open Rl2tp Rl2tp.Spec.Utf8 ByteArray.utf8DecodeChar?
 
@@ -27,10 +28,6 @@ theorem valid_cons (a : UInt8) (rest : Bytes) : valid (a :: rest) =
     else false) := by
   rcases rest with _ | ⟨b, _ | ⟨c, _ | ⟨d, r⟩⟩⟩ <;> simp only [valid, t1, t2, t3]
 
-def all256 (p : UInt8 → Bool) : Bool := (List.range 256).all fun n => p (UInt8.ofNat n)
-theorem all256_spec {p : UInt8 → Bool} (h : all256 p = true) (a : UInt8) : p a = true := by
-  have := List.all_eq_true.mp h a.toNat (by simp [List.mem_range]; exact a.toNat_lt)
-  simpa using this
 
 def fbCode : FirstByte → Nat
   | .invalid => 0 | .done => 1 | .oneMore => 2 | .twoMore => 3 | .threeMore => 4
